@@ -1784,6 +1784,8 @@ class Generator:
                     ops.append(op)
             if len(ops) >= 2:
                 self.emit({"k": "probe", "what": "c17round", "base": ["auth", 0], "ops": ops})
+        if sim.cfg.get("prop") == "C04" and sim.auth.up and sim.auth.version and rng.random() < 0.15:
+            self.emit({"k": "probe", "what": "replay_from_zero"})
         if not self.faults_on():
             if sim.partitioned:
                 self.emit({"k": "heal"})
